@@ -21,6 +21,7 @@ import (
 	"time"
 	"testing"
 
+	govc "github.com/nuts-foundation/go-did/vc"
 	"github.com/nuts-foundation/nuts-node/audit"
 	"github.com/nuts-foundation/nuts-node/vcr/signature"
 	"github.com/nuts-foundation/nuts-node/vcr/signature/proof"
@@ -30,6 +31,9 @@ import (
 )
 
 // independent statement of "encoding/json would conflate two members of one object", at any depth
+type vcVerifiableCredential = govc.VerifiableCredential
+type vcVerifiablePresentation = govc.VerifiablePresentation
+
 func vC17Conflated(v interface{}) bool {
 	switch x := v.(type) {
 	case map[string]interface{}:
@@ -178,6 +182,117 @@ func vC17FoldLeg(t *testing.T, ops, impl *bufio.Writer, only map[string]bool, se
 			}
 		}()
 		emit(map[string]interface{}{"op": "ambig", "name": name, "doc": tree, "conflated": vC17Conflated(tree)}, res)
+	}
+
+	// ---------------- casevar (deepening round 3): the REAL caseVariantMember(document, decodedInto) — the reflect loop over the json tags of
+	// the decoded Go type in front of ambiguousMember — vs model CaseVar.caseVariantMember. Types: go-did's VerifiableCredential /
+	// VerifiablePresentation as value, pointer, pointer to pointer; nil; a map; a string; a local struct with every tag shape. Documents: top-level
+	// members drawn from case / LONG S / KELVIN variants of the field names, with random subtrees (so the ambiguousMember tail also speaks).
+	{
+		type tagStruct struct {
+			A string `json:"issuer"`
+			B string `json:"kind,omitempty"`
+			C string `json:"-"`
+			D string `json:",omitempty"`
+			E string
+			F string `json:"-,"`
+			G string `json:"statusPurpose,string"`
+			H string `xml:"x" json:"encodedList"`
+			i string `json:"sk"`
+			J string `json:"a.b,omitempty,string"`
+		}
+		var vcNilPtr *vcVerifiableCredential
+		vcPtr := &vcVerifiableCredential{}
+		types := []struct {
+			name string
+			v    any
+		}{
+			{"vc-value", vcVerifiableCredential{}}, {"vc-ptr", vcPtr}, {"vc-ptrptr", &vcPtr}, {"vc-nilptr", vcNilPtr}, {"vp-value", vcVerifiablePresentation{}},
+			{"vp-ptr", &vcVerifiablePresentation{}}, {"tagstruct", tagStruct{}}, {"tagstruct-ptr", &tagStruct{}}, {"nil", nil}, {"map", map[string]interface{}{}},
+			{"string", "x"}, {"ptr-to-map", &map[string]interface{}{}}, {"empty-struct", struct{}{}},
+		}
+		describe := func(v any) map[string]interface{} {
+			ty := reflect.TypeOf(v)
+			ptr := 0
+			for ty != nil && ty.Kind() == reflect.Pointer {
+				ty = ty.Elem()
+				ptr++
+			}
+			d := map[string]interface{}{"ptr": ptr, "kind": "other", "tags": []string{}}
+			if ty == nil {
+				d["kind"] = "nil"
+			} else if ty.Kind() == reflect.Struct {
+				d["kind"] = "struct"
+				tags := []string{}
+				for i := 0; i < ty.NumField(); i++ {
+					tags = append(tags, ty.Field(i).Tag.Get("json"))
+				}
+				d["tags"] = tags
+			}
+			return d
+		}
+		// independent statement: some top-level member is not the JSON name of a field but strings.EqualFold to one
+		variantOf := func(doc map[string]interface{}, d map[string]interface{}) bool {
+			tags, _ := d["tags"].([]string)
+			for _, tg := range tags {
+				f := tg
+				if i := strings.IndexByte(tg, ','); i >= 0 {
+					f = tg[:i]
+				}
+				if f == "" || f == "-" {
+					continue
+				}
+				for m := range doc {
+					if m != f && strings.EqualFold(m, f) {
+						return true
+					}
+				}
+			}
+			return false
+		}
+		pool := []string{"issuer", "Issuer", "ISSUER", "iſsuer", "type", "Type", "TYPE", "@context", "@Context", "proof", "Proof", "PROOF", "credentialSubject", "credentialſubject",
+			"CredentialSubject", "id", "ID", "Id", "kind", "Kind", "KIND", "encodedList", "encodedLiſt", "ENCODEDLIST", "statusPurpose", "ſtatusPurpose", "sk", "SK", "ſK",
+			"-", "", "x", "holder", "Holder", "verifiableCredential", "VerifiableCredential", "issuanceDate", "iſſuanceDate", "expirationDate", "credentialStatus", "CredentialStatuſ",
+			"a.b", "A.B", "E", "e", "A", "a", "d", "D", "kind,omitempty", "中"}
+		rc := rand.New(rand.NewSource(seed*131 + 19))
+		docs := 12
+		if tier == "thorough" {
+			docs = 80
+		}
+		i := 0
+		for _, ty := range types {
+			d := describe(ty.v)
+			for k := 0; k < docs; k++ {
+				doc := map[string]interface{}{}
+				for nm := rc.Intn(5); nm > 0; nm-- {
+					var val interface{} = true
+					if rc.Intn(4) == 0 {
+						val = vC17RandTree(rc, 2)
+					}
+					doc[pool[rc.Intn(len(pool))]] = val
+				}
+				if k == 0 {
+					doc = map[string]interface{}{}
+				}
+				name := fmt.Sprintf("casevar-%d-%s", i, ty.name)
+				i++
+				if len(only) > 0 && !only["|"+name] {
+					continue
+				}
+				res := "clean"
+				func() {
+					defer func() {
+						if p := recover(); p != nil {
+							res = "panic"
+						}
+					}()
+					if caseVariantMember(proof.SignedDocument(doc), ty.v) != "" {
+						res = "found"
+					}
+				}()
+				emit(map[string]interface{}{"op": "casevar", "name": name, "ty": d, "doc": doc, "variant": variantOf(doc, d), "conflated": vC17Conflated(doc)}, res)
+			}
+		}
 	}
 
 	// ---------------- vcldfold
